@@ -281,10 +281,93 @@ pub fn run(ctx: &Ctx, samples: &Samples) -> Value {
             }
         }
     });
+    let h2_requests = run_h2(ctx, &sh, &srv, ctx.tier.pick(3, 60));
     let n = sh.requests.load(Ordering::Relaxed);
     let ids = sh.ids.lock().unwrap().len() as u64;
-    json!({"requests": n, "distinct_request_ids": ids, "connections": nconn, "per_kind": *sh.kinds.lock().unwrap(),
+    json!({"requests": n, "http2_requests_multiplexed": h2_requests, "distinct_request_ids": ids, "connections": nconn, "per_kind": *sh.kinds.lock().unwrap(),
            "script": "18 response kinds cycled over 8 keep-alive connections and two servers (unversioned, header-versioned); status codes 400..=599 cycled; client-supplied x-request-id headers (absent / repeated value / all-zero uuid / two lines) cycled"})
+}
+
+/// The same contract over HTTP/2: many requests multiplexed as concurrent streams of one connection.
+fn run_h2(ctx: &Ctx, sh: &Shared, srv: &LiveServer<()>, rounds: u64) -> u64 {
+    use crate::h2client::*;
+    // (name, method, path, body, content type, expected status, framework body, handler-id field)
+    let protos: Vec<(&str, &'static str, String, Vec<u8>, u16, bool, Option<&str>)> = vec![
+        ("success", "GET", "/ok".into(), vec![], 200, false, Some("handler_request_id")),
+        ("handler_client_error", "GET", "/err/418".into(), vec![], 418, true, None),
+        ("handler_server_error", "GET", "/err/502".into(), vec![], 502, true, None),
+        ("handler_custom_error", "GET", "/custom/409".into(), vec![], 409, false, Some("handler_request_id")),
+        ("path_extractor_failure", "GET", "/typed/notanumber".into(), vec![], 400, true, None),
+        ("path_extractor_failure_custom_error_type", "GET", "/ctyped/notanumber".into(), vec![], 400, false, None),
+        ("query_extractor_failure", "GET", "/q?x=abc".into(), vec![], 400, true, None),
+        ("query_ok", "GET", "/q?x=7".into(), vec![], 200, false, Some("handler_request_id")),
+        ("body_extractor_failure", "PUT", "/body".into(), b"{\"a\":".to_vec(), 400, true, None),
+        ("not_found", "GET", "/nope".into(), vec![], 404, true, None),
+        ("method_not_allowed", "POST", "/ok".into(), vec![], 405, true, None),
+        ("handler_sets_own_request_id_on_raw_response", "GET", "/own_raw".into(), vec![], 200, false, Some("handler_request_id")),
+        ("handler_sets_own_request_id_via_headers_mut", "GET", "/own_hdrs".into(), vec![], 200, false, Some("handler_request_id")),
+    ];
+    let mut sent = 0u64;
+    for round in 0..rounds {
+        let mut reqs = vec![];
+        let mut meta = vec![];
+        for rep in 0..8 {
+            for p in &protos {
+                let mut headers = vec![];
+                if p.1 == "PUT" {
+                    headers.push(("content-type".to_string(), "application/json".to_string()));
+                }
+                if (rep + round) % 2 == 0 {
+                    headers.push(("x-request-id".to_string(), "client-chosen-id".to_string()));
+                }
+                reqs.push(H2Req { method: p.1, path: p.2.clone(), headers, body: p.3.clone() });
+                meta.push(p);
+            }
+        }
+        let res = fetch_all(srv.addr, reqs, true, T);
+        for (r, p) in res.iter().zip(meta) {
+            sent += 1;
+            sh.requests.fetch_add(1, Ordering::Relaxed);
+            *sh.kinds.lock().unwrap().entry(format!("h2:{}", p.0)).or_insert(0) += 1;
+            let case = json!({"kind":"live_request","seam":"request_id","server":"http2","case": p.0, "request": format!("{} {}", p.1, p.2)});
+            let mut why: Vec<String> = vec![];
+            match r {
+                Err(e) => why.push(format!("no response over HTTP/2: {e}")),
+                Ok(resp) => {
+                    if resp.status != p.4 {
+                        why.push("status".into());
+                    }
+                    let rids = resp.header("x-request-id");
+                    let rid = if rids.len() == 1 { Some(String::from_utf8_lossy(rids[0]).to_string()) } else { None };
+                    match &rid {
+                        None => why.push(format!("{} x-request-id headers", rids.len())),
+                        Some(id) => {
+                            if id.is_empty() || !sh.ids.lock().unwrap().insert(id.clone()) {
+                                why.push("request id empty or not unique".into());
+                            }
+                        }
+                    }
+                    let body = resp.json();
+                    if p.5 && body.as_ref().and_then(|b| b["request_id"].as_str().map(|s| s.to_string())) != rid {
+                        why.push("body.request_id != x-request-id".into());
+                    }
+                    if let Some(k) = p.6 {
+                        if body.as_ref().and_then(|b| b[k].as_str().map(|s| s.to_string())) != rid {
+                            why.push("id given to the handler != x-request-id".into());
+                        }
+                    }
+                    let mark = MARK.as_bytes();
+                    if resp.body.windows(mark.len()).any(|w| w == mark) {
+                        why.push("internal message leaked".into());
+                    }
+                }
+            }
+            if !why.is_empty() {
+                ctx.report(Violation { sig: json!({"kind":"live_error_contract","case": p.0, "why": why, "transport": "h2"}), case, expected: json!({"status": p.4, "one unique x-request-id": true}), observed: json!(r.as_ref().map(|x| json!({"status": x.status, "headers": x.headers.iter().map(|(k, v)| (k.clone(), String::from_utf8_lossy(v).to_string())).collect::<Vec<_>>(), "body": String::from_utf8_lossy(&x.body)})).unwrap_or_else(|e| json!(e))) });
+            }
+        }
+    }
+    sent
 }
 
 pub fn replay(ctx: &Ctx, _case: &Value) {
